@@ -15,7 +15,7 @@ func init() {
 			"R2 position independence (shared with C16/R2): no branch and no non-position field depends on Token.Pos/End/Lexer.pos. " +
 			"R3 the list entry points run the single-statement production (C08/R4) in a loop that skips empty statements and stops only at <eof> or after a statement not followed by ';' (loop shape via TKAI). " +
 			"Decides: equal treatment of the two statement terminators and shared productions. Does not decide: equality of the trees up to a shift as a theorem.",
-		Rules: []ruleFn{ruleC11R1, ruleC16R2, ruleC08R4, ruleC11R3, ruleC14R8, ruleC05R1Only, ruleC11R4, ruleC05R6},
+		Rules: []ruleFn{ruleC11R1, ruleC16R2, ruleC08R4, ruleC11R3, ruleC14R8, ruleC05R1Only, ruleC11R4, ruleC05R6, ruleC12R6},
 	})
 }
 
